@@ -109,9 +109,9 @@ def report_grouped(ctx, mismatches, keyfn, whatfn, limit=12):
 C07_INVS = ["C07_ExactlyOne", "C07_NeverBoth", "C07_NoReplyToReply", "C07_Addressed", "C07_FlagExact", "C07_IsReplies"]
 
 
-def c07_mc_cfg(items, modes='{"plain", "muxreg", "muxunreg"}', length=1):
-    return ("CONSTANTS\n  C7Items <- %s\n  C7Modes = %s\n  C7Len = %d\n%s"
-            "INIT Init7\nNEXT Next7\n" % (items, modes, length, C08_DUMMY)
+def c07_mc_cfg(items, modes='{"plain", "muxreg", "muxunreg"}', length=1, dev="{}"):
+    return ("CONSTANTS\n  C7Dev = %s\n  C7Items <- %s\n  C7Modes = %s\n  C7Len = %d\n%s"
+            "INIT Init7\nNEXT Next7\n" % (dev, items, modes, length, C08_DUMMY)
             + "".join("INVARIANT %s\n" % i for i in C07_INVS) + "CHECK_DEADLOCK FALSE\n")
 
 
@@ -119,7 +119,7 @@ C08_DUMMY = "  C8Inputs = {}\n  C8Progs = {}\n  C8Sess = {}\n"
 
 
 def serve_emit_cfg(tier, which, part=1, nparts=1, seed=1):
-    return ('CONSTANTS\n  C7Items = {}\n  C7Modes = {"plain"}\n  C7Len = 0\n%s  Tier = "%s"\n  Which = "%s"\n  Seed = %d\n  Part = %d\n'
+    return ('CONSTANTS\n  C7Dev = {}\n  C7Items = {}\n  C7Modes = {"plain"}\n  C7Len = 0\n%s  Tier = "%s"\n  Which = "%s"\n  Seed = %d\n  Part = %d\n'
             '  NParts = %d\nINIT Init7\nNEXT ENext\n' % (C08_DUMMY, tier, which, seed % 1000, part, nparts))
 
 
@@ -132,6 +132,6 @@ C08_INVS = ["C08_ElementWindow", "C08_NextStartsAtNext", "C08_FromNormalised", "
 
 
 def c08_mc_cfg(inputs="C8InputsMC", progs="C8ProgsMC", sess="C8SessMC"):
-    return ("CONSTANTS\n  C7Items = {}\n  C7Modes = {}\n  C7Len = 0\n  C8Inputs <- %s\n  C8Progs <- %s\n  C8Sess <- %s\n"
+    return ("CONSTANTS\n  C7Dev = {}\n  C7Items = {}\n  C7Modes = {}\n  C7Len = 0\n  C8Inputs <- %s\n  C8Progs <- %s\n  C8Sess <- %s\n"
             "INIT Init8\nNEXT Next8\n" % (inputs, progs, sess)
             + "".join("INVARIANT %s\n" % i for i in C08_INVS) + "CHECK_DEADLOCK FALSE\n")
